@@ -168,6 +168,10 @@ func (s *Scen) aggStep(m *aggMsg) *Step {
 		} else if uint64(m.data.Index)+1 == m.cps {
 			bnd = "committee_index=count-1"
 		}
+		bnd = joinTags(bnd, s.forkEpochTag("slot", s.spec().SlotToEpoch(m.data.Slot)))
+	}
+	if strings.HasPrefix(m.desc, "clock:old-") && chain.ForkAtEpoch(s.spec(), s.spec().SlotToEpoch(m.data.Slot)) >= chain.Deneb {
+		bnd = joinTags(bnd, "window-end-deneb-rule:"+strings.TrimSuffix(strings.TrimPrefix(m.desc, "clock:old-"), "+outer-prefix"))
 	}
 	return &Step{Topic: "agg", Desc: m.desc, Variant: variant, Bnd: bnd, Cond: cond, Key: keys, Now: m.now, Bad: m.bad,
 		Run: func(b *Backend) gossipval.GossipValidatorResult {
@@ -314,7 +318,7 @@ func (s *Scen) aggVariants(site attSite, h *aggMsg, nonSel []int) []*aggMsg {
 
 func (s *Scen) aggHistories(tier string, rng *rand.Rand) []*History {
 	var out []*History
-	if s.Name == "p0early" || s.Name == "altmid" || s.Name == "latebel" {
+	if s.Name == "p0early" || s.Name == "altmid" || s.Name == "latebel" || s.Name == "late1" {
 		return nil
 	}
 	back := common.Slot(2 * uint64(s.spec().SLOTS_PER_EPOCH))
